@@ -52,6 +52,17 @@ func genC08(t *rapid.T) *FileCase {
 			case 0:
 				en.Kind = "plain"
 				en.Label = fmt.Sprintf("%s_Handler%c", name, 'A'+e)
+				// the same map script type may be given twice (two handlers, or a handler next to an inline
+				// script): the header lists every entry
+				var earlier []string
+				for _, pe := range ms.Entries {
+					if pe.Kind != "table" {
+						earlier = append(earlier, pe.Type)
+					}
+				}
+				if len(earlier) > 0 && rapid.IntRange(0, 3).Draw(t, "sametype") == 0 {
+					en.Type = earlier[rapid.IntRange(0, len(earlier)-1).Draw(t, "sametypeof")]
+				}
 			case 1:
 				en.Kind = "inline"
 				en.Body = body(name + "_" + en.Type)
@@ -319,7 +330,7 @@ func TestC08_Regress(t *testing.T) { runRegress(t, "C08") }
 
 func TestC08_MapScripts(t *testing.T) {
 	st := stat("C08")
-	st.SetRule("1-2 mapscripts statements (with and without scope modifier) of 0-6 entries in any order and mix: TYPE: Label, TYPE { body }, TYPE [ 0-5 rows of var, value: Label | var, value { body } ] with multi-token vars and values, constants in vars / values and constants named like entry labels; bodies from the control-flow grammar with inline text/moves() and statement poryswitch; distinct map script types per statement. oracle: header label and scope, map_script lines (plain/inline in source order, then tables in source order), .byte 0; each table local with its map_script_2 rows in source order and .2byte 0; each inline script defined once and local; inline bodies executed against the reference under hashed worlds; and their emitted block must be textually identical to the block of the same body compiled as script(local) <same name>; optimize off and on. non-trivial = a table with >= 2 rows mixing label and inline rows AND an inline script with a loop or switch; distinct by source text")
-	st.Assume("map script types are distinct inside one mapscripts statement")
+	st.SetRule("1-2 mapscripts statements (with and without scope modifier) of 0-6 entries in any order and mix: TYPE: Label, TYPE { body }, TYPE [ 0-5 rows of var, value: Label | var, value { body } ] with multi-token vars and values, constants in vars / values and constants named like entry labels; bodies from the control-flow grammar with inline text/moves() and statement poryswitch; map script types distinct per statement except that a ':' entry may repeat the type of an earlier ':' or inline entry. oracle: header label and scope, map_script lines (plain/inline in source order, then tables in source order), .byte 0; each table local with its map_script_2 rows in source order and .2byte 0; each inline script defined once and local; inline bodies executed against the reference under hashed worlds; and their emitted block must be textually identical to the block of the same body compiled as script(local) <same name>; optimize off and on. non-trivial = a table with >= 2 rows mixing label and inline rows AND an inline script with a loop or switch; distinct by source text")
+	st.Assume("inline entries and tables of one mapscripts statement have distinct map script types (their generated labels are derived from the type)")
 	runRapid(t, "C08", "TestC08_MapScripts", genC08, checkC08, fileCaseSrc)
 }
